@@ -704,6 +704,14 @@ fn gen_ext_task(rng: &mut Rng, origin: String) -> ExtTask {
         entries.push(fol::UserGuideEntry::AnnotatedFormula(fol::AnnotatedFormula { role: if g.rng.chance(1, 8) { fol::Role::Lemma } else { fol::Role::Assumption }, direction: *g.rng.pick(&[fol::Direction::Universal, fol::Direction::Universal, fol::Direction::Forward, fol::Direction::Backward]), name: if g.rng.chance(1, 2) { "ug_assumption".into() } else { String::new() }, formula: fol::Formula::QuantifiedFormula { quantification: fol::Quantification { quantifier: fol::Quantifier::Forall, variables: vec![fol::Variable { name: "X".into(), sort: fol::Sort::General }] }, formula: Box::new(body) } }));
     }
     if g.rng.chance(1, 8) {
+        // output predicates that neither program mentions, one symbol at several arities (declared in non-sorted order)
+        for ar in [2usize, 1, 0] {
+            if g.rng.chance(2, 3) {
+                entries.push(fol::UserGuideEntry::OutputPredicate(fol::Predicate { symbol: "miss".into(), arity: ar }));
+            }
+        }
+    }
+    if g.rng.chance(1, 8) {
         // an input predicate named like a renamed private predicate, mentioned (if at all) only by an assumption
         let name = *g.rng.pick(&["q_p", "q_p1", "q"]);
         entries.push(fol::UserGuideEntry::InputPredicate(fol::Predicate { symbol: name.into(), arity: 1 }));
